@@ -62,6 +62,9 @@ func main() {
 	tags := flag.String("tags", "", "build tags")
 	list := flag.Bool("list", false, "list properties with rules")
 	flag.Parse()
+	if os.Getenv("FDCHECK_DUMP_KEYS") != "" {
+		dumpKeys = []string{}
+	}
 	if *list {
 		var ps []string
 		for p := range registry {
